@@ -239,31 +239,36 @@ class Builder:
         return InTap(w, name, obj)
 
 
-def run(case):
-    w = NetWorld()
+def build_pipeline(w, case):
+    """Build the pipeline of a case in world w (installs the scripted random seams). Returns (builder, generators,
+    restore) - call restore() when the run is over."""
     env = w.env
     saved = wire_mod.random
     saved_red = red_mod.random
     gens = []
-    try:
-        draws = []
-        for st in _all_stages(case.get('stages', [])):
-            if st.get('t') == 'Wire':
-                draws += st.get('draws', [])
-        sr = ScriptedRandom(w, 'loss', draws or [0.5])
+    draws = []
+    for st in _all_stages(case.get('stages', [])):
+        if st.get('t') == 'Wire':
+            draws += st.get('draws', [])
+    sr = ScriptedRandom(w, 'loss', draws or [0.5])
 
-        def uniform(a, b, sr=sr):
-            v = sr.values[sr.i % len(sr.values)] if sr.values else 0.5
-            sr.i += 1
-            w.rec('DRAW', 'loss', v, w.pnames.get(env.active_process))
-            return a + (b - a) * v
-        sr.uniform = uniform
-        wire_mod.random = sr
-        rdraws = []
-        for st in _all_stages(case.get('stages', [])):
-            if st.get('t') == 'RED':
-                rdraws += st.get('draws', [])
-        red_mod.random = ScriptedRandom(w, 'red', rdraws or [0.5])
+    def uniform(a, b, sr=sr):
+        v = sr.values[sr.i % len(sr.values)] if sr.values else 0.5
+        sr.i += 1
+        w.rec('DRAW', 'loss', v, w.pnames.get(env.active_process))
+        return a + (b - a) * v
+    sr.uniform = uniform
+    wire_mod.random = sr
+    rdraws = []
+    for st in _all_stages(case.get('stages', [])):
+        if st.get('t') == 'RED':
+            rdraws += st.get('draws', [])
+    red_mod.random = ScriptedRandom(w, 'red', rdraws or [0.5])
+
+    def restore():
+        wire_mod.random = saved
+        red_mod.random = saved_red
+    try:
         b = Builder(w, case)
         head = b.chain(case.get('stages', []))
         for s in case.get('sources', []):
@@ -275,10 +280,20 @@ def run(case):
                 gens.append((s, g))
             else:
                 start_injector(w, head, [tuple(x) for x in s.get('workload', [])], src=s.get('id', 'src'))
+    except BaseException:
+        restore()
+        raise
+    return b, gens, restore
+
+
+def run(case):
+    w = NetWorld()
+    env = w.env
+    b, gens, restore = build_pipeline(w, case)
+    try:
         w.run(max_steps=60000)
     finally:
-        wire_mod.random = saved
-        red_mod.random = saved_red
+        restore()
     viol, stats, nontrivial = check(w, case, b, gens)
     res = {'viol': viol, 'digest': digest_of(w.log), 'nontrivial': nontrivial, 'stats': stats,
            'simtime': float(env.now), 'steps': w.steps}
